@@ -1,5 +1,7 @@
 import Driver.Common
 import Model.Sampling
+import Model.SamplingFrames
+import Model.SamplingCnl
 open Lean Drv Sampling
 
 def closeF (a b : Float) : Bool :=
@@ -80,6 +82,55 @@ def parseNests (j : Json) : Except String (List (Nest Float)) := do
     let p ← asArr e
     match p.toList with
     | [m, l] => pure ⟨(← asFloat m), (← intList l)⟩
+    | _ => throw "bad-op"
+
+/-- labelled frame `[[label, [bits]]]`, labels natural numbers -/
+def parseLFrame (j : Json) : Except String (List (Nat × List Float)) := do
+  let a ← asArr j
+  a.toList.mapM fun e => do
+    let p ← asArr e
+    match p.toList with
+    | [l, r] => pure ((← asNat l), (← floatList r))
+    | _ => throw "bad-op"
+
+def parseDrawn (j : Json) : Except String (Drawn Nat Float) := do
+  pure ⟨(← strList (← j.getObjVal? "cols")), (← parseLFrame (← j.getObjVal? "main")),
+        (← strList (← j.getObjVal? "mev_cols")), (← parseLFrame (← j.getObjVal? "mev"))⟩
+
+/-- individuals `[[label, [[name, bits]]]]`, labels as text -/
+def parseInds (j : Json) : Except String (List (String × List (String × Float))) := do
+  let a ← asArr j
+  a.toList.mapM fun e => do
+    let p ← asArr e
+    match p.toList with
+    | [l, r] => pure ((← asStr l), (← parseNamed r))
+    | _ => throw "bad-op"
+
+def jTable (t : List (String × List (String × Float))) : Json :=
+  jArr (t.map fun r => jArr [jStr r.1, jNamed r.2])
+
+/-- table of alternatives `[[label, id, [bits]]]` -/
+def parseAlts (j : Json) : Except String (List (String × Int × List Float)) := do
+  let a ← asArr j
+  a.toList.mapM fun e => do
+    let p ← asArr e
+    match p.toList with
+    | [l, i, r] => pure ((← asStr l), (← asInt i), (← floatList r))
+    | _ => throw "bad-op"
+
+/-- cross-nested nests `[[mu bits, name, [[alternative, alpha bits]]]]` -/
+def parseCnlNests (j : Json) : Except String (List (CnlNest Float)) := do
+  let a ← asArr j
+  a.toList.mapM fun e => do
+    let p ← asArr e
+    match p.toList with
+    | [m, n, al] =>
+      let alphas ← (← asArr al).toList.mapM fun x => do
+        let q ← asArr x
+        match q.toList with
+        | [i, b] => pure ((← asInt i), (← asFloat b))
+        | _ => throw "bad-op"
+      pure ⟨(← asFloat m), (← asStr n), alphas⟩
     | _ => throw "bad-op"
 
 def handle (j : Json) : Except String Json := do
@@ -191,6 +242,57 @@ def handle (j : Json) : Except String Json := do
       let tbl := ids.zip (us.map fun o => o.getD 0.0)
       let U : Int → Float := fun a => (tbl.lookup a).getD (0.0 / 0.0)
       pure (Json.mkObj [("ll", fbits (fullNestedLL U nests ids chosen))])
+  | "cnlll" =>
+    let row ← parseNamed (← j.getObjVal? "row")
+    let attrs ← strList (← j.getObjVal? "attributes")
+    let u ← parseFormula (← j.getObjVal? "utility")
+    let J ← getNat j "J"
+    let J2 : Option Nat ←
+      match j.getObjVal? "J2" with
+      | .ok Json.null => pure none
+      | .ok v => do pure (some (← asNat v))
+      | .error _ => throw "bad-op"
+    let nests ← parseCnlNests (← j.getObjVal? "nests")
+    pure (Json.mkObj [("ll", optFloat (cnlSampledLL attrs u J J2 (nests.map fun n => (n.mu, n.name)) row))])
+  | "fullcnlll" =>
+    let ind ← parseNamed (← j.getObjVal? "ind")
+    let altCols ← strList (← j.getObjVal? "alt_cols")
+    let ids ← intList (← j.getObjVal? "ids")
+    let altRows ← floatMat (← j.getObjVal? "alt_rows")
+    let comb ← parseCombined (← j.getObjVal? "combined")
+    let u ← parseFormula (← j.getObjVal? "utility")
+    let chosen ← getInt j "chosen"
+    let nests ← parseCnlNests (← j.getObjVal? "nests")
+    let us := altRows.map fun r => altUtility ind altCols r comb u
+    if us.any Option.isNone || ids.length != altRows.length then
+      pure (Json.mkObj [("ll", Json.null)])
+    else
+      let tbl := ids.zip (us.map fun o => o.getD 0.0)
+      let U : Int → Float := fun a => (tbl.lookup a).getD (0.0 / 0.0)
+      pure (Json.mkObj [("ll", fbits (fullCnlLL U nests ids chosen))])
+  | "mergetable" =>
+    let inds ← parseInds (← j.getObjVal? "inds")
+    let drawn ← (← asArr (← j.getObjVal? "drawn")).toList.mapM parseDrawn
+    let altCols ← strList (← j.getObjVal? "alt_cols")
+    let J ← getNat j "J"
+    let J2 : Option Nat ←
+      match j.getObjVal? "J2" with
+      | .ok Json.null => pure none
+      | .ok v => do pure (some (← asNat v))
+      | .error _ => throw "bad-op"
+    let comb ← parseCombined (← j.getObjVal? "combined")
+    pure (Json.mkObj [("base", jTable (applyRows inds drawn)),
+      ("rows", match sampleAndMerge altCols J J2 comb inds drawn with
+        | some t => jTable t
+        | none => Json.null)])
+  | "altrows" =>
+    let alts ← parseAlts (← j.getObjVal? "alts")
+    let ids ← intList (← j.getObjVal? "ids")
+    pure (Json.mkObj [("rows", jArr ((rowsOfIds alts ids).map fun r => jArr [jInt r.2.1, jFloats r.2.2]))])
+  | "segsize" =>
+    match generateSegmentSize (← getInt j "n") (← getInt j "m") with
+    | .ok l => pure (Json.mkObj [("ok", jInts l)])
+    | .error e => pure (Json.mkObj [("err", jStr (reprStr e))])
   | _ => throw "bad-op"
 
 def main : IO Unit := Drv.run handle
